@@ -1759,13 +1759,17 @@ func ruleVD13(c *Ctx) {
 		if em.Fn == cb {
 			return false
 		}
-		for _, call := range callsIn(cb) {
-			cal := calleeOf(call.Common())
-			if cal == nil || !inUnit[cal] {
-				continue
-			}
-			if (cal == em.Fn || c.F.TransitiveCallees(cal)[em.Fn]) && inCycle(call.Block()) {
-				return true
+		// the loop may sit in the callback or in any function of its unit on the way to the emission
+		// (cb -> compiler.compile(): for each task { compileTask(...) -> newEvent })
+		for g := range inUnit {
+			for _, call := range callsIn(g) {
+				cal := calleeOf(call.Common())
+				if cal == nil || !inUnit[cal] {
+					continue
+				}
+				if (cal == em.Fn || c.F.TransitiveCallees(cal)[em.Fn]) && inCycle(call.Block()) {
+					return true
+				}
 			}
 		}
 		return false
